@@ -110,6 +110,116 @@ fn check_cell(dir: &Path, img: &Image, open_as: &str, cell: Cell, ctx: &mut Ctx)
     }
 }
 
+
+fn head_and_len(p: &Path) -> Option<(u64, Vec<u8>)> {
+    use std::io::Read;
+    let mut f = std::fs::File::open(p).ok()?;
+    let len = f.metadata().ok()?.len();
+    let mut buf = vec![0u8; (len as usize).min(1 << 20)];
+    f.read_exact(&mut buf).ok()?;
+    Some((len, buf))
+}
+
+fn judge_attempt(out: Outcome, cell: &Cell, ctx: &mut Ctx) {
+    match out {
+        Outcome::Accepted => {
+            let mut f = finding(&["C13"], "wrong_open", 0, format!("{}: the open was accepted", cell.desc));
+            f.signature = cell.signature.clone();
+            let st = ctx.classify(f);
+            ctx.record_stop(st, None);
+            ctx.count("accepted", 1);
+        }
+        Outcome::RefusedErr(_) => ctx.count("refused.by_error", 1),
+        Outcome::RefusedPanic(_) => ctx.count("refused.by_panic.partial_or_padded", 1),
+    }
+}
+
+/// the files of `img` minus those in `gone` (bit 0 key, 1 val, 2 htx; absent or zero-length), optionally with a foreign
+/// 16-byte header in file `foreign.0`; every file that exists with content before the attempt must be unchanged after it
+fn check_partial(dir: &Path, img: &Image, gone: usize, empty: bool, foreign: Option<(usize, Vec<u8>)>, open_as: &str, cell: Cell, ctx: &mut Ctx) {
+    let _ = std::fs::remove_dir_all(dir);
+    if std::fs::create_dir_all(dir).is_err() {
+        ctx.inconclusive.push("cannot create the scratch directory".into());
+        return;
+    }
+    let names = ["key", "val", "htx"];
+    let mut before: Vec<(std::path::PathBuf, Vec<u8>)> = Vec::new();
+    for (i, n) in names.iter().enumerate() {
+        let p = dir.join(format!("m.{n}"));
+        if gone & (1 << i) != 0 {
+            if empty {
+                let _ = std::fs::write(&p, b"");
+            }
+            continue;
+        }
+        let mut b = match i { 0 => img.key.clone(), 1 => img.val.clone(), _ => img.htx.clone() };
+        if let Some((f, bytes)) = foreign.as_ref() {
+            if *f == i {
+                b[0..16].copy_from_slice(bytes);
+            }
+        }
+        if std::fs::write(&p, &b).is_err() {
+            ctx.inconclusive.push("cannot write image".into());
+            return;
+        }
+        before.push((p, b));
+    }
+    ctx.evaluations += 1;
+    let out = try_open(dir, open_as);
+    judge_attempt(out, &cell, ctx);
+    for (p, b) in before {
+        ctx.count("byte_comparisons", 1);
+        match std::fs::read(&p) {
+            Ok(x) if x == b => {}
+            Ok(x) => {
+                let at = x.iter().zip(b.iter()).position(|(u, v)| u != v).unwrap_or(x.len().min(b.len()));
+                let f = finding(&["C13"], "refused_open_changed_files", 0, format!("{}: the attempt changed {} (length {} -> {}, first difference at byte {at})", cell.desc, p.file_name().unwrap().to_string_lossy(), b.len(), x.len()));
+                let st = ctx.classify(f);
+                ctx.record_stop(st, None);
+            }
+            Err(e) => {
+                let f = finding(&["C13"], "refused_open_changed_files", 0, format!("{}: {} unreadable after the attempt: {e}", cell.desc, p.display()));
+                let st = ctx.classify(f);
+                ctx.record_stop(st, None);
+            }
+        }
+    }
+    let _ = std::fs::remove_dir_all(dir);
+}
+
+/// the files of `img`, those in `padded` extended (sparse) to `len` bytes; length and the first MiB of each are compared
+fn check_padded(dir: &Path, img: &Image, padded: usize, len: u64, open_as: &str, cell: Cell, ctx: &mut Ctx) {
+    let _ = std::fs::remove_dir_all(dir);
+    if img.write(dir, "m").is_err() {
+        ctx.inconclusive.push("cannot write image".into());
+        return;
+    }
+    let names = ["key", "val", "htx"];
+    for (i, n) in names.iter().enumerate() {
+        if padded & (1 << i) != 0 {
+            let ok = std::fs::OpenOptions::new().write(true).open(dir.join(format!("m.{n}"))).and_then(|f| f.set_len(len)).is_ok();
+            if !ok {
+                ctx.inconclusive.push("cannot extend a scratch file to 4 GiB (sparse)".into());
+                return;
+            }
+        }
+    }
+    let before: Vec<Option<(u64, Vec<u8>)>> = names.iter().map(|n| head_and_len(&dir.join(format!("m.{n}")))).collect();
+    ctx.evaluations += 1;
+    let out = try_open(dir, open_as);
+    judge_attempt(out, &cell, ctx);
+    for (i, n) in names.iter().enumerate() {
+        let after = head_and_len(&dir.join(format!("m.{n}")));
+        ctx.count("byte_comparisons", 1);
+        if after != before[i] {
+            let f = finding(&["C13"], "refused_open_changed_files", 0, format!("{}: the attempt changed m.{n} (length {:?} -> {:?}, or its first MiB)", cell.desc, before[i].as_ref().map(|x| x.0), after.as_ref().map(|x| x.0)));
+            let st = ctx.classify(f);
+            ctx.record_stop(st, None);
+        }
+    }
+    let _ = std::fs::remove_dir_all(dir);
+}
+
 pub fn run(a: &Args) -> Ctx {
     let mut ctx = Ctx::new("C13", &["C13"], &a.replay_dir, &a.shard_name());
     let mut rng = Rng::new(a.shard_seed() ^ 0xC13);
@@ -264,6 +374,68 @@ pub fn run(a: &Args) -> Ctx {
                 let cell = Cell { desc: format!("{} map whose .{fname} carries the format signature of its .{}, opened as {}", type_name(ka), ["key", "val", "htx"][g], type_name(ka)), signature: format!("swapped_format_signature file={fname} from={} type={} outcome=accepted", ["key", "val", "htx"][g], type_name(ka)) };
                 check_cell(&dir, &im, ka, cell, &mut ctx);
                 ctx.count("cells.swapped_format_signatures", 1);
+            }
+        }
+        // (e) some of the three files are missing or empty while the remaining ones belong to another type / carry a
+        // foreign header: what is there must still be checked, and must stay as it is
+        for &kb in KT_NAMES.iter() {
+            if sig_of(ka) == sig_of(kb) {
+                continue;
+            }
+            for mode in ["absent", "empty"] {
+                for gone in [0b011usize, 0b001, 0b010, 0b100, 0b101, 0b110] {
+                    job += 1;
+                    if job % a.nshards != a.shard {
+                        continue;
+                    }
+                    let names = ["key", "val", "htx"];
+                    let gone_names: Vec<&str> = (0..3).filter(|i| gone & (1 << i) != 0).map(|i| names[i]).collect();
+                    let cell = Cell {
+                        desc: format!("{} map ({entries} entries) with .{} {mode}, opened as {}", type_name(ka), gone_names.join(" and ."), type_name(kb)),
+                        signature: format!("partial_files gone={} mode={mode} created={} opened={} outcome=accepted", gone_names.join("+"), type_name(ka), type_name(kb)),
+                    };
+                    check_partial(&dir, &img, gone, mode == "empty", None, kb, cell, &mut ctx);
+                    ctx.count("cells.partial_file_sets", 1);
+                }
+            }
+        }
+        for (what, bytes) in foreign16.iter().filter(|(w, _)| !w.starts_with("type signature")) {
+            for (f, gone) in [(2usize, 0b011usize), (0, 0b110), (1, 0b101), (2, 0b001), (0, 0b010)] {
+                job += 1;
+                if job % a.nshards != a.shard {
+                    continue;
+                }
+                let names = ["key", "val", "htx"];
+                let gone_names: Vec<&str> = (0..3).filter(|i| gone & (1 << i) != 0).map(|i| names[i]).collect();
+                let cell = Cell {
+                    desc: format!("{} map ({entries} entries) whose .{} starts with {what} while .{} are absent, opened as {}", type_name(ka), names[f], gone_names.join(" and ."), type_name(ka)),
+                    signature: format!("partial_files_foreign_header file={} what={what} gone={} type={} outcome=accepted", names[f], gone_names.join("+"), type_name(ka)),
+                };
+                check_partial(&dir, &img, gone, false, Some((f, bytes.clone())), ka, cell, &mut ctx);
+                ctx.count("cells.partial_file_sets_foreign_header", 1);
+            }
+        }
+        // (f) files whose length is a multiple of 4 GiB (sparse): the length must not matter for what is checked
+        if entries > 0 {
+            for &kb in KT_NAMES.iter() {
+                if sig_of(ka) == sig_of(kb) {
+                    continue;
+                }
+                for padded in [0b111usize, 0b001, 0b010, 0b100] {
+                    job += 1;
+                    if job % a.nshards != a.shard {
+                        continue;
+                    }
+                    let mult = 1 + (job as u64 % 2);
+                    let names = ["key", "val", "htx"];
+                    let pn: Vec<&str> = (0..3).filter(|i| padded & (1 << i) != 0).map(|i| names[i]).collect();
+                    let cell = Cell {
+                        desc: format!("{} map whose .{} are padded to {} GiB, opened as {}", type_name(ka), pn.join(" and ."), 4 * mult, type_name(kb)),
+                        signature: format!("padded_files which={} created={} opened={} outcome=accepted", pn.join("+"), type_name(ka), type_name(kb)),
+                    };
+                    check_padded(&dir, &img, padded, mult << 32, kb, cell, &mut ctx);
+                    ctx.count("cells.padded_to_4gib_multiples", 1);
+                }
             }
         }
         // (c) single-byte mutations of the 16 signature bytes of each file, opened as A
